@@ -3,7 +3,11 @@ package c11
 import (
 	"encoding/json"
 	"fmt"
+	"os"
 	"runtime"
+	"sort"
+	"strconv"
+	"strings"
 	"sync"
 	"sync/atomic"
 	"time"
@@ -54,6 +58,19 @@ type progResult struct {
 
 var qidSeq uint64 = 5_000_000
 
+var (
+	progMu     sync.Mutex
+	lastProgResult *progResult
+)
+
+// stallInfo is what the parent needs to tell a deadlock from a slow run: the process CPU time and the
+// state of every goroutine that belongs to the programme.
+type stallInfo struct {
+	CPUTicks   int64    `json:"cpuTicks"` // utime+stime of the worker process (clock ticks)
+	Goroutines []string `json:"goroutines"`
+	Dump       string   `json:"dump"`
+}
+
 func init() {
 	sut.RegisterOp("c11_run", func(r *sut.Req) (interface{}, error) {
 		var p programme
@@ -61,6 +78,78 @@ func init() {
 			return nil, err
 		}
 		return runProgramme(&p), nil
+	})
+	// asynchronous variant: start, then poll; lets the parent examine a stall
+	sut.RegisterOp("c11_start", func(r *sut.Req) (interface{}, error) {
+		var p programme
+		if err := json.Unmarshal(r.Body, &p); err != nil {
+			return nil, err
+		}
+		progMu.Lock()
+		lastProgResult = nil
+		progMu.Unlock()
+		go func() {
+			res := runProgramme(&p)
+			progMu.Lock()
+			lastProgResult = res
+			progMu.Unlock()
+		}()
+		return nil, nil
+	})
+	sut.RegisterOp("c11_poll", func(r *sut.Req) (interface{}, error) {
+		progMu.Lock()
+		defer progMu.Unlock()
+		return lastProgResult, nil
+	})
+	sut.RegisterOp("c11_stall", func(r *sut.Req) (interface{}, error) {
+		info := &stallInfo{}
+		if b, err := os.ReadFile("/proc/self/stat"); err == nil {
+			// fields 14 and 15 (utime, stime) after the ")" that ends the command name
+			s := string(b)
+			if i := strings.LastIndex(s, ")"); i >= 0 {
+				f := strings.Fields(s[i+1:])
+				if len(f) > 13 {
+					u, _ := strconv.ParseInt(f[11], 10, 64)
+					st, _ := strconv.ParseInt(f[12], 10, 64)
+					info.CPUTicks = u + st
+				}
+			}
+		}
+		buf := make([]byte, 4<<20)
+		n := runtime.Stack(buf, true)
+		for _, g := range strings.Split(string(buf[:n]), "\n\n") {
+			if !strings.Contains(g, "siglens/siglens/pkg/") && !strings.Contains(g, "c11.runProgramme") {
+				continue
+			}
+			if strings.Contains(g, "c11.init") && strings.Contains(g, "c11_stall") {
+				continue
+			}
+			lines := strings.Split(g, "\n")
+			if len(lines) < 2 {
+				continue
+			}
+			// header without the minutes counter + the top two frames
+			hdr := lines[0]
+			if i := strings.Index(hdr, ","); i >= 0 {
+				hdr = hdr[:i] + "]:"
+			}
+			top := hdr
+			for _, l := range lines[1:] {
+				if !strings.HasPrefix(l, "\t") {
+					top += " | " + l
+					if strings.Count(top, "|") >= 3 {
+						break
+					}
+				}
+			}
+			info.Goroutines = append(info.Goroutines, top)
+		}
+		sort.Strings(info.Goroutines)
+		if n > 60000 {
+			n = 60000
+		}
+		info.Dump = string(buf[:n])
+		return info, nil
 	})
 }
 
